@@ -40,7 +40,7 @@ def generate(seed, tier):
     for i in range(NCASES[tier]):
         cs = K.harness_seed(seed, ID, i)
         rng = random.Random(cs)
-        profile = rng.choice(["discrete", "discrete", "mixed", "nested", "guarded", "linear", "linear", "multiassign"])
+        profile = rng.choice(["discrete", "discrete", "mixed", "nested", "guarded", "linear", "linear", "multiassign", "delay", "counter"])
         prog, feats, meta = G.generate(cs, profile)
         params, inits = G.instantiate_params(rng, meta, prog)
         pv = program_variables(prog)
